@@ -210,6 +210,16 @@ func genFlows(t *rapid.T) []aggh.FlowDef {
 		{V6: true, Src: "2001:db8::1", Dst: "2001:db8::2", SPort: 1234, DPort: 80, Proto: 6},
 		{V6: true, Src: "2001:db8::1", Dst: "2001:db8::2", SPort: 1234, DPort: 80, Proto: 17}, // differs in protocol only
 	}
+	// realistic special addresses: the unspecified address as a source (DHCP), broadcast / multicast
+	// as a destination
+	switch rapid.IntRange(0, 5).Draw(t, "special") {
+	case 0:
+		base[0].Src, base[0].Dst, base[0].SPort, base[0].DPort, base[0].Proto = "0.0.0.0", "255.255.255.255", 68, 67, 17
+	case 1:
+		base[2].Src, base[2].Dst = "::", "ff02::1:2"
+	case 2:
+		base[1].Dst = "0.0.0.0"
+	}
 	for i := range base {
 		base[i].Kind = rapid.IntRange(0, 4).Draw(t, "kind")
 		if base[i].Kind == aggh.KindInterEgressDeny {
